@@ -308,6 +308,7 @@ type c10Runner struct {
 	deaths      map[int]string // case id -> stderr signature of a child that died during it (reproduced)
 	hangs       map[int]bool
 	flaky       []string
+	pristine    map[string]c10Case
 	slowOnce    int
 	childRuns   int
 }
@@ -350,6 +351,9 @@ func (rn *c10Runner) runChild(cases []c10Case, tag string) (inflight int, timedO
 	doneCh := make(chan error, 1)
 	go func() { doneCh <- cmd.Wait() }()
 	budget := time.Duration(len(cases))*time.Duration(rn.timeoutMs)*time.Millisecond/4 + 2*time.Minute
+	for _, cs := range cases {
+		budget += time.Duration(cs.TimeoutMs) * time.Millisecond
+	}
 	var werr error
 	select {
 	case werr = <-doneCh:
@@ -441,6 +445,18 @@ func (rn *c10Runner) runBatch(cases []c10Case, tag string) {
 			continue
 		}
 		one := []c10Case{rest[idx]}
+		if timedOut {
+			// Calibrate before calling it a hang: time the UNMUTATED fixture in a fresh child under the current machine load and give
+			// the suspect 40x that (at least the normal limit).
+			if pc, ok := rn.pristine[rest[idx].Fixture]; ok {
+				t0 := time.Now()
+				rn.runChild([]c10Case{pc}, tag+"c")
+				cal := int(time.Since(t0).Milliseconds()) * 40
+				if cal > rn.timeoutMs {
+					one[0].TimeoutMs = cal
+				}
+			}
+		}
 		in2, to2, sig2, tail2 := rn.runChild(one, tag+"r")
 		rn.mu.Lock()
 		switch {
@@ -516,18 +532,18 @@ func c10(c *rig.Ctx) {
 	f1 := must(c10FixtureTables("tables-small", mk("tables-small"), r, 7, 3, 20))
 	plans = append(plans, tgtPlan{f1, anyFile, c10Plan{exhaustive: true, fieldInst: 3}})
 	// 2. larger table file (sampled)
-	f2 := must(c10FixtureTables("tables-large", mk("tables-large"), r, 150, 0, 70))
-	plans = append(plans, tgtPlan{f2, kindIs("tablefile"), c10Plan{singles: S(100, 4000), bursts: S(60, 3000), truncs: S(60, 2000), fieldInst: S(8, 200)}})
+	f2 := must(c10FixtureTables("tables-large", mk("tables-large"), r, 130, 0, 70))
+	plans = append(plans, tgtPlan{f2, kindIs("tablefile"), c10Plan{singles: S(60, 4000), bursts: S(30, 3000), truncs: S(40, 2000), fieldInst: S(6, 200)}})
 	// 3. snappy archive, in-memory index reader: exhaustive
-	f3 := must(c10FixtureArchive("archive-snappy", mk("archive-snappy"), r, 8, false, false, 20))
+	f3 := must(c10FixtureArchive("archive-snappy", mk("archive-snappy"), r, 6, false, false, 18))
 	plans = append(plans, tgtPlan{f3, kindIs("archive"), c10Plan{exhaustive: true, fieldInst: 3}})
 	// 4. the same shape through the mmap index reader: index / metadata / footer exhaustively, data spans not again
-	f4 := must(c10FixtureArchive("archive-snappy-mmap", mk("archive-snappy-mmap"), r, 8, false, true, 20))
+	f4 := must(c10FixtureArchive("archive-snappy-mmap", mk("archive-snappy-mmap"), r, 6, false, true, 18))
 	plans = append(plans, tgtPlan{f4, kindIs("archive"), c10Plan{exhaustive: true, fieldInst: 3, skip: func(rg string) bool {
 		return strings.Contains(rg, "chunk-span") || strings.Contains(rg, "footer-checksums")
 	}}})
 	// 5. archive with a dictionary span and zstd chunks
-	f5 := must(c10FixtureArchive("archive-dict", mk("archive-dict"), r, 6, true, false, 32))
+	f5 := must(c10FixtureArchive("archive-dict", mk("archive-dict"), r, 5, true, false, 28))
 	sz5 := 0
 	for _, t := range f5.Targets {
 		if t.Kind == "archive" {
@@ -608,7 +624,10 @@ func c10(c *rig.Ctx) {
 		i = j
 	}
 	rn := &c10Runner{c: c, fixturesDir: fxDir, scratch: c.TempDir("c10run"), timeoutMs: 15000, allocLimit: 512,
-		results: map[int]c10Result{}, deaths: map[int]string{}, hangs: map[int]bool{}}
+		results: map[int]c10Result{}, deaths: map[int]string{}, hangs: map[int]bool{}, pristine: map[string]c10Case{}}
+	for id, fxid := range pristine {
+		rn.pristine[fxid] = *byID[id]
+	}
 	workers := runtime.NumCPU() - 4
 	if workers > 12 {
 		workers = 12
